@@ -106,8 +106,11 @@ namespace cppcms {
 					page *p=(page *)malloc(size + sizeof(page));
 					if(!p)
 						throw std::bad_alloc();
-					p->next = pages_->next;
-					pages_->next = p;
+					// link it in front: the last page of the list is the one clear()
+					// keeps and re-uses as a full sized page, so it must never be
+					// one of these exact-fit pages
+					p->next = pages_;
+					pages_ = p;
 					return p->data;
 				}
 				if(size > free_space_) {
